@@ -1,0 +1,87 @@
+//! Verification hooks (feature "verif"): thin pass-throughs to private items.
+//! Nothing here is compiled unless the `verif` feature is on.
+use crate::controls::{Control, RawControl};
+use crate::controls_impl::{build_tag, parse_controls};
+use crate::exop::Exop;
+use crate::filter::Unescaper;
+use crate::ldap::Ldap;
+use crate::protocol::LdapCodec;
+use crate::result::{LdapResult, LdapResultExt};
+
+use bytes::BytesMut;
+use lber::structure::StructureTag;
+use lber::structures::Tag;
+use std::collections::HashSet;
+use std::sync::{Arc, Mutex};
+use tokio_util::codec::{Decoder, Encoder};
+
+#[allow(clippy::type_complexity)]
+pub fn decode(buf: &mut BytesMut) -> Result<Option<(i32, Tag, Vec<Control>)>, std::io::Error> {
+    let mut c = LdapCodec {};
+    c.decode(buf).map(|o| o.map(|(id, (t, c))| (id, t, c)))
+}
+
+pub fn encode(
+    id: i32,
+    tag: Tag,
+    ctrls: Option<Vec<RawControl>>,
+    into: &mut BytesMut,
+) -> std::io::Result<()> {
+    let mut c = LdapCodec {};
+    c.encode((id, tag, ctrls), into)
+}
+
+pub fn result_ext(t: Tag) -> (LdapResult, Exop, Option<Vec<u8>>) {
+    let r = LdapResultExt::from(t);
+    (r.0, r.1, (r.2).0)
+}
+
+pub fn controls_build_tag(rc: RawControl) -> StructureTag {
+    build_tag(rc)
+}
+
+pub fn controls_parse(t: StructureTag) -> Vec<Control> {
+    parse_controls(t)
+}
+
+pub fn ldap_with_ids(last: i32, inuse: HashSet<i32>) -> Ldap {
+    let (tx, _rx) = tokio::sync::mpsc::unbounded_channel();
+    let (id_scrub_tx, _r2) = tokio::sync::mpsc::unbounded_channel();
+    let (misc_tx, _r3) = tokio::sync::mpsc::unbounded_channel();
+    Ldap {
+        msgmap: Arc::new(Mutex::new((last, inuse))),
+        tx,
+        id_scrub_tx,
+        misc_tx,
+        has_tls: false,
+        last_id: 0,
+        timeout: None,
+        controls: None,
+        search_opts: None,
+    }
+}
+
+pub fn next_msgid(l: &mut Ldap) -> i32 {
+    l.next_msgid_hook()
+}
+
+pub fn msgmap_snapshot(l: &Ldap) -> (i32, Vec<i32>) {
+    let g = l.msgmap.lock().unwrap();
+    (g.0, g.1.iter().copied().collect())
+}
+
+/// One step of the shared hex unescaper; states: 0 WantFirst, 1 WantSecond(v), 2 Value(v), 3 Error.
+pub fn unescaper_step(state: u8, v: u8, c: u8) -> (u8, u8) {
+    let u = match state {
+        0 => Unescaper::WantFirst,
+        1 => Unescaper::WantSecond(v),
+        2 => Unescaper::Value(v),
+        _ => Unescaper::Error,
+    };
+    match u.feed(c) {
+        Unescaper::WantFirst => (0, 0),
+        Unescaper::WantSecond(v) => (1, v),
+        Unescaper::Value(v) => (2, v),
+        Unescaper::Error => (3, 0),
+    }
+}
